@@ -471,3 +471,84 @@ def r8_position_advances(ck, P):
                         ck.ok(R, where)
     if n == 0:
         ck.incomplete(R, 'no loop-carried floating-point position found in the gradient painters')
+
+
+def r9_radial_roots(ck, P):
+    """the parameter written for a radial gradient solves a*T^2 - 2*b*T + c = 0 (T = t / pixman_fixed_1, inva = pixman_fixed_1 / a)"""
+    import sympy
+    R = ck.rule('C13-R9', 'every gradient parameter t that radial_write_color hands to the colour writer is a root of a*T^2 - 2*b*T + c = 0 in fixed-point units (T = t / 65536, with inva = 65536 / a), including the degenerate linear case a == 0 where T = c / (2b): checked symbolically on the expression trees', floor=6)
+    u = P.units.get('pixman-radial-gradient.c')
+    f = u.functions.get('radial_write_color') if u else None
+    if f is None:
+        ck.incomplete(R, 'radial_write_color not found'); return
+    ck.saw(f)
+    pn = [p[0] for p in f.params]
+    a, b, c = sympy.symbols('a b c')
+    env0 = {('a', pn.index('a')): a, ('a', pn.index('b')): b, ('a', pn.index('c')): c}
+    if 'inva' in pn:
+        env0[('a', pn.index('inva'))] = 65536 / a
+
+    def ev(g, o, env, d=0):
+        if d > 40:
+            return None
+        if o[0] == 'c':
+            return sympy.Integer(int(o[1]))
+        if o[0] == 'fc':
+            return sympy.nsimplify(float(o[1]))
+        if o[0] == 'a':
+            return env.get(('a', o[1]))
+        if o[0] != 'v':
+            return None
+        x = g.by_id[o[1]]
+        if x.op in ('fpext', 'fptrunc', 'sitofp', 'fptosi', 'sext', 'zext'):
+            return ev(g, x.a[0], env, d + 1)
+        if x.op in ('fadd', 'fsub', 'fmul', 'fdiv'):
+            p_, q_ = ev(g, x.a[0], env, d + 1), ev(g, x.a[1], env, d + 1)
+            if p_ is None or q_ is None:
+                return None
+            return {'fadd': p_ + q_, 'fsub': p_ - q_, 'fmul': p_ * q_, 'fdiv': p_ / q_}[x.op]
+        if x.op == 'fneg':
+            p_ = ev(g, x.a[0], env, d + 1)
+            return None if p_ is None else -p_
+        if x.op == 'call' and isinstance(x.callee, str):
+            if x.callee.startswith('llvm.fmuladd'):
+                p_, q_, r_ = (ev(g, y, env, d + 1) for y in x.a[:3])
+                return None if None in (p_, q_, r_) else p_ * q_ + r_
+            if x.callee in ('sqrt', 'llvm.sqrt.f64'):
+                p_ = ev(g, x.a[0], env, d + 1)
+                return None if p_ is None else sympy.sqrt(p_)
+            h = u.functions.get(x.callee)
+            if h is not None and len(h.blocks) == 1:
+                args = [ev(g, y, env, d + 1) for y in x.a]
+                if None in args:
+                    return None
+                t = h.blocks[0].term
+                return ev(h, t.a[0], {('a', i): v for i, v in enumerate(args)}, d + 1) if t.op == 'ret' and t.a else None
+        return None
+
+    n = 0
+    for x in f.insts():
+        if x.op != 'call' or x.callee is not None or x.d.get('callee') in (None, ['asm']) or len(x.a) < 3:
+            continue
+        cal = x.d.get('callee')
+        if not (isinstance(cal, list) and cal[0] == 'a' and 'write' in (pn[cal[1]] or '')):
+            continue
+        t = ev(f, x.a[1], env0)
+        n += 1
+        if t is None:
+            ck.incomplete(R, 'the parameter passed to the colour writer at %s is not an expression of a, b, c' % x.loc()); continue
+        linear = False
+        for tt, s_ in f.guard_edges(x.bb.id):
+            cc = f.v(tt.a[0]) if tt.a else None
+            if cc is not None and cc.op == 'fcmp' and cc.d['p'] in ('oeq', 'ueq') and tt.d['succ'][0] == s_ and any(o == ['a', pn.index('a')] for o in cc.a) and any(o[0] == 'fc' and float(o[1]) == 0.0 for o in cc.a):
+                linear = True
+        T = t / 65536
+        res = (-2 * b * T + c) if linear else (a * T ** 2 - 2 * b * T + c)
+        res = sympy.simplify(res.subs(a, 0) if linear else res)
+        where = 'parameter at %s (%s case): t = %s' % (x.loc(), 'linear a == 0' if linear else 'quadratic', sympy.simplify(t))
+        if res == 0:
+            ck.ok(R, where)
+        else:
+            ck.violation(R, f.name, 'gradient parameter of the %s case' % ('linear (a == 0)' if linear else 'quadratic'), 'radial_write_color writes the colour for t = %s, which does not solve a*T^2 - 2*b*T + c = 0 (residue %s): the colour of every pixel on that branch is taken at the wrong position of the gradient' % (sympy.simplify(t), res), x.loc())
+    if n == 0:
+        ck.incomplete(R, 'no call of the colour writer found in radial_write_color')
